@@ -53,10 +53,14 @@ def draw_reg(rng, busword, idx, allow_atomic_little=False, ordering="big"):
     if rng.random() < 0.3:
         fields, off = [], 0
         for f in range(rng.randint(1, 4)):
-            off += rng.choice([0, 0, 1, 3])
+            # a field either declares its offset (possibly after a gap) or leaves it to the aggregate (offset=None): it then sits
+            # right after the previous field, wherever that one was placed
+            explicit = rng.random() < 0.6
+            if explicit:
+                off += rng.choice([0, 0, 1, 3])
             fs = rng.choice([1, 1, 2, 5, 8])
             pulse = kind == "storage" and fs == 1 and rng.random() < 0.4
-            fields.append({"name": "f%d" % f, "size": fs, "offset": off, "reset": rng.getrandbits(fs) if not pulse else 0, "pulse": pulse})
+            fields.append({"name": "f%d" % f, "size": fs, "offset": off, "explicit": explicit, "reset": rng.getrandbits(fs) if not pulse else 0, "pulse": pulse})
             off += fs
         size = off
     r["size"] = size
@@ -208,10 +212,10 @@ def build(p):
             if r["kind"] == "csr":
                 o = csr.CSR(r["size"], name=r["name"], n=r["n"])
             elif r["kind"] == "status":
-                flds = [csr.CSRField(f["name"], size=f["size"], offset=f["offset"], reset=f["reset"]) for f in (r.get("fields") or [])]
+                flds = [csr.CSRField(f["name"], size=f["size"], offset=f["offset"] if f.get("explicit", True) else None, reset=f["reset"]) for f in (r.get("fields") or [])]
                 o = csr.CSRStatus(r["size"], reset=r["reset"], fields=flds, name=r["name"], read_only=r["read_only"], n=r["n"])
             else:
-                flds = [csr.CSRField(f["name"], size=f["size"], offset=f["offset"], reset=f["reset"], pulse=f["pulse"]) for f in (r.get("fields") or [])]
+                flds = [csr.CSRField(f["name"], size=f["size"], offset=f["offset"] if f.get("explicit", True) else None, reset=f["reset"], pulse=f["pulse"]) for f in (r.get("fields") or [])]
                 o = csr.CSRStorage(r["size"], reset=r["reset"], reset_less=r["reset_less"], fields=flds, atomic_write=r["atomic"],
                                    write_from_dev=r["wfd"], name=r["name"], n=r["n"])
             setattr(per, "_" + r["name"], o)
